@@ -293,6 +293,30 @@ class DocBuilder:
         if kind in ELEMENT_KINDS:
             self.elems[c].append((h, kind))
 
+    def mutate_in_place(self, roots, n=None):
+        """a later chapter of the same history: records are added / extended in place, namespaces are registered, after the
+        containers have already been exported, looked up, unified … (any answer remembered from before is now stale)"""
+        g, w = self.g, self.w
+        changed = False
+        for _ in range(n or g.rng.randint(1, 3)):
+            c = g.choice([x for x in all_containers(w, roots) if x in self.recs])
+            k = g.rng.random()
+            recs = w.conts[c].records
+            if k < 0.4 and recs:
+                i = g.rng.randrange(len(recs))
+                h = w.rec_at(c, i)
+                attrs = self.other_attrs(c, n=1)
+                if attrs and w.add_attrs(h, attrs) is None:
+                    changed = True
+            elif k < 0.8:
+                h, err = self.add_record(c)
+                changed = changed or h is not None
+            else:
+                ns = g.namespace(allow_empty_prefix=False)
+                w.add_ns(c, ns.prefix, ns.uri)
+                changed = True
+        return changed
+
     def populate(self, c, n):
         for _ in range(n):
             self.add_record(c)
